@@ -564,6 +564,15 @@ func runC16(rec *vkit.Recorder, c *c16Case, t *rapid.T) []vkit.Violation {
 				add("C16/hash-depends-on-reload-history/"+name, "after reloading from the old to the new content the hash is %s, a fresh process computes %s (edit %q)", hs, h1, name)
 			}
 		}
+		// the extra configuration (stop-scrape reason) a process holds is no part of the configuration content:
+		// a process that was told to stop scraping and then loads the content hashes like any other
+		stopped := prom.NewConfigManager()
+		if stopped.ReloadFromRaw([]byte(text0)) == nil && stopped.UpdateExtraConfig(prom.ExtraConfig{StopScrapeReason: "remote store is full"}) == nil &&
+			stopped.ReloadFromRaw([]byte(txt)) == nil {
+			if hs := stopped.ConfigInfo().ConfigHash; hs != h1 {
+				add("C16/hash-depends-on-extra-config/"+name, "a process whose extra configuration has a stop-scrape reason hashes the content to %s, a fresh process to %s", hs, h1)
+			}
+		}
 		// "in sync" means running the coordinator's configuration: after the reload the scrape clients of the
 		// long-running process present the same credentials as those of a process started on the new content
 		if strings.Contains(name, "secret") || strings.Contains(name, "auth") || effective == 1 {
